@@ -25,8 +25,22 @@ CLAIM = {
              "C07_print (as stated: re-reading the printed form of an accepted literal preserves sign, mantissa, scale and, for an integer "
              "part >= 1000, the grouping style), C07_print_value / C07_print_text (the printed text is a well-formed literal with the written "
              "value and decimal places). The naive law scan(print d) = d is refuted (C07_print_naive_false: `0,123` prints as `123`). "
-             "NOT theorems: that the Lean model equals the Rust code (rust_decimal / winnow internals are modelled from source) and the "
-             "token extent in the 11 syntactic positions - both covered by the correspondence: on every run PrettyDecimal::from_str + "
+             "C07_positions (Lemmas/LiteralPositions.lean, all inputs): C07_positions_token - primitive::pretty_decimal's token "
+             "(model tokenSplit) is (tok, rest) iff the input is tok ++ rest, tok is an optional '-' followed by a non-empty run over "
+             "[0-9,.] and rest does not begin with a character of [0-9,.] (maximal munch; C07_positions_maximal: every other token "
+             "starting there is a prefix of it; C07_positions_no_token: failure iff no token starts there; C07_positions_alphabet: the "
+             "alphabet is the one the Rust source spells out now); prettyDecimal/amount/parseAmount_uses_tokenSplit: the parser "
+             "succeeds iff scan accepts exactly that token and the PDec of the tree is its result (C07_positions_amount: iff the "
+             "maximal token is a well-formed representable literal, value = the whole token's); C07_positions_reject / amount_rejects: "
+             "a rejected maximal token makes both amount parsers fail at its start - never a shorter read (`12,50 USD` is not `12`); "
+             "exprs_use_tokenSplit + lotAmount/lot/totalCost/rateCost/postingAmount/posting/transaction/commodityDeclaration/"
+             "parseLedgerEntry/priceDbEntry_uses_tokenSplit: every literal in the tree any grammar rule returns (through all operators "
+             "and parentheses of value expressions: posting amount, cost, lot price, balance assertion, format sub-directive, price-db "
+             "rate) is scan of a token tokenSplit cut out inside the text that rule consumed; C07_positions / C07_positions_pricedb: "
+             "for a whole accepted ledger / price-db text, every literal of every entry is litDec of a maximal, well-formed, "
+             "representable token of the text. "
+             "NOT theorems: that the Lean model equals the Rust code (rust_decimal / winnow internals and the parser model are modelled "
+             "from source) - covered by the correspondence: on every run PrettyDecimal::from_str + "
              "to_string and the real ledger parser / price-db loader are run on every string over {0,1,5,9,',','.','-'} up to length 6 "
              "(7 thorough), random literals up to 45 digits around 2^96 / 28 places / 2^127, and literals embedded in 11 syntactic "
              "positions; the Lean Spec predicates and an independent regular-expression oracle are evaluated on what the real code "
@@ -41,7 +55,27 @@ THEOREMS = ["Okane.C07.C07_total", "Okane.C07.C07_closed_form", "Okane.C07.C07_r
             "Okane.C07.bodySpec_eq_spec", "Okane.C07.C07_scan_spec", "Okane.C07.C07_sound", "Okane.C07.C07_sound_fields",
             "Okane.C07.C07_complete", "Okane.C07.C07_reject",
             "Okane.C07.printPlain_spec", "Okane.C07.printComma_spec", "Okane.C07.printPDec_spec",
-            "Okane.C07.C07_print_exact", "Okane.C07.C07_print", "Okane.C07.C07_print_value", "Okane.C07.C07_print_text"]
+            "Okane.C07.C07_print_exact", "Okane.C07.C07_print", "Okane.C07.C07_print_value", "Okane.C07.C07_print_text",
+            # C07_positions (Lemmas/LiteralPositions.lean, restated at the end of Props/C07.lean)
+            "Okane.C07.C07_positions_token", "Okane.C07.C07_positions_maximal", "Okane.C07.C07_positions_no_token",
+            "Okane.C07.C07_positions_alphabet", "Okane.C07.C07_positions_amount", "Okane.C07.C07_positions_reject",
+            "Okane.C07.C07_positions", "Okane.C07.C07_positions_pricedb",
+            "Okane.LiteralPositions.tokenSplit_ok_iff", "Okane.LiteralPositions.tokenSplit_maximal",
+            "Okane.LiteralPositions.tokenSplit_sign", "Okane.LiteralPositions.tokenSplit_error_iff",
+            "Okane.LiteralPositions.tokenSplit_error_pos", "Okane.LiteralPositions.token_unique",
+            "Okane.LiteralPositions.no_short_read",
+            "Okane.LiteralPositions.prettyDecimal_uses_tokenSplit", "Okane.LiteralPositions.prettyDecimal_ok_iff",
+            "Okane.LiteralPositions.prettyDecimal_rejects", "Okane.LiteralPositions.amount_uses_tokenSplit",
+            "Okane.LiteralPositions.parseAmount_uses_tokenSplit", "Okane.LiteralPositions.amount_rejects",
+            "Okane.LiteralPositions.exprs_use_tokenSplit", "Okane.LiteralPositions.valueExpr_uses_tokenSplit",
+            "Okane.LiteralPositions.lotAmount_uses_tokenSplit", "Okane.LiteralPositions.lot_uses_tokenSplit",
+            "Okane.LiteralPositions.totalCost_uses_tokenSplit", "Okane.LiteralPositions.rateCost_uses_tokenSplit",
+            "Okane.LiteralPositions.postingAmount_uses_tokenSplit", "Okane.LiteralPositions.posting_uses_tokenSplit",
+            "Okane.LiteralPositions.transaction_uses_tokenSplit", "Okane.LiteralPositions.commodityDeclaration_uses_tokenSplit",
+            "Okane.LiteralPositions.parseLedgerEntry_uses_tokenSplit", "Okane.LiteralPositions.priceDbEntry_uses_tokenSplit",
+            "Okane.LiteralPositions.parseLedgerRun_uses_tokenSplit", "Okane.LiteralPositions.parseEntries_uses_tokenSplit",
+            "Okane.LiteralPositions.parsePriceDb_uses_tokenSplit",
+            "Okane.LiteralPositions.C07_positions_ledger", "Okane.LiteralPositions.C07_positions_priceDb"]
 
 ALPHABET = "0159,.-"
 POSITIONS = ["amount", "paren", "neg", "cost", "total", "lot", "lottotal", "balance", "balonly", "format", "pricedb"]
